@@ -233,7 +233,9 @@ def check_slice(ctx, sig, m, out, cn, pos, L, names, what, taste=True):
                         continue
                     g = arr[..., k]
                     w = want[sx, sy]
-                    okm = mand.close(g[mask], w[mask], 1e-11)
+                    with np.errstate(all="ignore"):
+                        sc = np.maximum(np.abs(vl), np.abs(vr))[sx, sy]
+                    okm = mand.close(g[mask], w[mask], 1e-11, sc[mask])
                     if fname.startswith("aff_" + AX[cn]):
                         okm &= np.abs(g[mask] - mand.aff_value(m, cn, pos)) <= 1e-9 * (abs(mand.A0) + abs(mand.B0))
                     if not okm.all():
